@@ -3,6 +3,44 @@ import json
 import sys
 
 
+def has_negated_class(spec):
+    """Does the (shown) spec contain a str pattern with a negated class / [^x]?"""
+    if isinstance(spec, dict):
+        p = spec.get("pattern")
+        if isinstance(p, str):
+            try:
+                import re._parser as sre
+                from re._constants import IN, NEGATE, NOT_LITERAL
+
+                def walk(items):
+                    for op, av in items:
+                        if op is NOT_LITERAL:
+                            return True
+                        if op is IN and av and av[0][0] is NEGATE:
+                            return True
+                        if isinstance(av, (list, tuple)):
+                            for x in av:
+                                if hasattr(x, "data") and walk(x.data):
+                                    return True
+                                if isinstance(x, (list, tuple)):
+                                    for y in x:
+                                        if hasattr(y, "data") and walk(y.data):
+                                            return True
+                        if hasattr(av, "data") and walk(av.data):
+                            return True
+                    return False
+                if walk(sre.parse(p).data):
+                    return True
+            except Exception:
+                if "[^" in p:
+                    return True
+        return any(has_negated_class(v) for v in spec.values())
+    if isinstance(spec, (list, tuple)):
+        return any(has_negated_class(v) for v in spec)
+    return False
+
+
+
 def gen_case(rng):
     from rv.gen_spec import Profile, gen_spec
     prof = Profile(max_depth=2, clockless=True, p_unsat=0.0, p_empty_alphabet=0.0, p_value=0.15,
@@ -52,10 +90,12 @@ def main(argv):
         k, specs = gen_case(rng)
         schemas = []
         shown = []
+        negated = []
         for s in specs:
             try:
                 schemas.append(build(s))
                 shown.append(show(s))
+                negated.append(has_negated_class(s))
             except DeclarationError:
                 continue
         passes = []
@@ -72,7 +112,7 @@ def main(argv):
                 except Exception as e:  # noqa
                     vals.append({"$exc": type(e).__name__})
             passes.append(vals)
-        out.append({"case": case, "seed_kind": type(k).__name__ + (":falsy" if not k else ""), "specs": shown, "reprs": [repr(s) for s in schemas],
+        out.append({"case": case, "seed_kind": type(k).__name__ + (":falsy" if not k else ""), "specs": shown, "negated": negated, "reprs": [repr(s) for s in schemas],
                     "pass1": passes[0], "pass2": passes[1]})
     json.dump(out, sys.stdout)
     return 0
